@@ -85,7 +85,8 @@ PROPS = {
                       "DFKconvert modelled as per-element copy / byte reversal from the generated table (C06)"],
         assumptions=["caller supplies distinct, sufficiently large in/out buffers (the C routine documents no in-place support)",
                      "region part: little-endian host; pixel_mem_size = pixel_disk_size for every number type (generated sizes); no int32 overflow in xdim*ydim*pixel_size",
-                     "compressed (non-chunked) images are tied on every path (reads and further writes in the creating session, partial rewrites after reopen)"],
+                     "compressed (non-chunked) images are tied on every path (reads and further writes in the creating session, partial rewrites after reopen)",
+                     "several RI ids on one image: every id is released before GRend (GRend with ids outstanding is not exercised); GRsetcompress/GRsetchunk only before the first data"],
     ),
     "C07": dict(
         lean_props=["H4.Props.C07"],
